@@ -177,6 +177,17 @@ protected:
 };
 }
 namespace rlbox {
+// B8V: a 256-byte window whose usable memory is chosen per sandbox at creation (two sandboxes of the type may differ):
+// anything derived from get_total_memory() - such as the app-pointer token limit - is per sandbox
+class rlbox_vsbx_var : public rlbox_vsbx<uint8_t, 8>
+{
+public:
+  size_t total = 256;
+  inline void impl_create_sandbox(uintptr_t b, uint32_t t) { rlbox_vsbx<uint8_t, 8>::impl_create_sandbox(b); total = t; }
+  inline size_t impl_get_total_memory() { return total; }
+};
+}
+namespace rlbox {
 // B32W: a guest ABI whose int/short are WIDER than the application's (int = 64 bit): values read from sandbox
 // memory must be range-checked when they are narrowed to the application type
 class rlbox_vsbx_wide : public rlbox_vsbx<uint32_t, 32>
@@ -225,6 +236,7 @@ protected:
 using B64M = rlbox::rlbox_vsbx_mask64;
 using B32L = rlbox::rlbox_vsbx_life;
 using B32W = rlbox::rlbox_vsbx_wide;
+using B8V = rlbox::rlbox_vsbx_var;
 using B32 = rlbox::rlbox_vsbx<uint32_t, 32>;
 using B64 = rlbox::rlbox_vsbx<uint64_t, 32>;   // host-width, non-identity representation (offset from base)
 using B32S = rlbox::rlbox_vsbx_small<16>;
